@@ -1106,6 +1106,26 @@ fn monitor(w: &World, op: &MOp, pre: &Snap, post: &Snap, code: u32, ret: &[i128]
         }
     }
 
+    // ----- C07: an accepted sector termination ends every running deal recorded for the sector -----
+    if let MOp::Terminate { caller, pepoch, sectors, .. } = op {
+        if code == 0 {
+            let prov = pid(w, *caller);
+            for sn in sectors {
+                if let Some(ids) = pre.psectors.get(&(prov, *sn)) {
+                    for id in ids {
+                        if let (Some(p), true) = (pre.proposals.get(id), pre.states.contains_key(id)) {
+                            if p.end_epoch > *pepoch && post.proposals.contains_key(id) {
+                                bad.push(fail("C07", "terminated-sector-deal-survives", format!(
+                                    "sector {} of provider {} was terminated at epoch {} but its deal {} (end {}) is still live: it will be paid to its nominal end and the collateral released",
+                                    sn, prov, pepoch, id, p.end_epoch)));
+                            }
+                        }
+                    }
+                }
+            }
+        }
+    }
+
     // ----- C08: a deal is activated at most once (read off the RETURN value of the activation message) -----
     if code == 0 {
         let mut activated: Vec<u64> = vec![];
@@ -1693,6 +1713,42 @@ fn schedules(interval: i64) -> Vec<MCase> {
     out
 }
 
+/// C07: one sector holding two deals with different end epochs (deal 0 ends first), terminated at epochs
+/// around both ends, with or without a settlement / cron tick of the first deal before, and with or
+/// without an unknown (deal-less) sector listed before the real one in the termination notice
+fn two_deal_cases(interval: i64) -> Vec<MCase> {
+    let s = 100i64;
+    let ea = s + MIN_DUR;
+    let eb = ea + 1000;
+    let mk = |piece: u8, end: i64| PDeal {
+        client: 0, client_key_form: false, provider: 3, piece, size: 2048, verified: false, label: 0,
+        start: s, end, price: 10, pcoll: 0, ccoll: 777, sig: 0, bad_piece_cid: false,
+    };
+    let mut out = vec![];
+    for t in [ea - 1, ea, ea + 1, ea + 500, eb - 1, eb, eb + 1] {
+        for before in 0..3 {
+            for unknown_first in [false, true] {
+                let mut ops = vec![
+                    MOp::AddBalance { from: 0, epoch: 0, who: 0, value: 100_000_000 },
+                    MOp::AddBalance { from: 5, epoch: 0, who: 3, value: 100_000_000_000 },
+                    MOp::Publish { caller: 7, epoch: 5, deals: vec![mk(1, ea), mk(2, eb)] },
+                    MOp::Activate { caller: 3, epoch: 10, sectors: vec![(3, eb + interval + 10, vec![0, 1])] },
+                ];
+                match before {
+                    1 => ops.push(MOp::Settle { caller: P_STRANGER, epoch: t - 1, ids: vec![0] }),
+                    2 => ops.push(MOp::Cron { caller: P_CRON, epoch: t - 1 }),
+                    _ => {}
+                }
+                ops.push(MOp::Terminate { caller: 3, epoch: t, pepoch: t, sectors: if unknown_first { vec![1, 3] } else { vec![3] } });
+                ops.push(MOp::Settle { caller: P_STRANGER, epoch: eb + interval + 1, ids: vec![0, 1] });
+                ops.push(MOp::Withdraw { caller: 0, epoch: eb + interval + 2, who: 0, amount: 1 << 62, fail: None });
+                out.push(MCase { interval, ops });
+            }
+        }
+    }
+    out
+}
+
 fn merge(into: &mut Stats, s: Stats) {
     for (k, v) in s.op_hist { *into.op_hist.entry(k).or_insert(0) += v; }
     for (k, v) in s.code_hist { *into.code_hist.entry(k).or_insert(0) += v; }
@@ -1742,10 +1798,14 @@ fn main() {
         }
     }
     let mode = a.rest.get("mode").cloned().unwrap_or_default();
+    let mut n_extra = 0usize;
     let sched: Vec<MCase> = if mode == "sched" {
         let all = schedules(86400);
         let n = a.cases.min(all.len()).max(1);
-        (0..n).map(|k| all[(k * all.len() / n + (a.seed as usize % (all.len() / n).max(1))) % all.len()].clone()).collect()
+        let mut v = two_deal_cases(86400);
+        n_extra = v.len();
+        v.extend((0..n).map(|k| all[(k * all.len() / n + (a.seed as usize % (all.len() / n).max(1))) % all.len()].clone()));
+        v
     } else {
         vec![]
     };
@@ -1789,8 +1849,8 @@ fn main() {
     let mut by_fate: BTreeMap<String, ([i128; 5], MCase)> = BTreeMap::new();
     let mut fate_hist: BTreeMap<String, u64> = BTreeMap::new();
     let mut path_fail: Vec<serde_json::Value> = vec![];
-    for o in results.into_iter().flatten() {
-        if mode == "sched" {
+    for (ri, o) in results.into_iter().flatten().enumerate() {
+        if mode == "sched" && ri >= n_extra {
             if let Some((f, v)) = &o.fin {
                 *fate_hist.entry(f.clone()).or_insert(0) += 1;
                 // client_refund_exact / provider_collateral_fate on the lock side: once the deal is gone
